@@ -91,6 +91,16 @@ CHECKS = {
          "Held on 120 programs + 6 real-Git scenarios (quick) / 3000 + 60 (thorough): ~1900 requests per quick run, every success answer compared with the expected content (35 % also against a real one-shot run), every delayed blob announced exactly once and retrieved, failure equivalence with the one-shot filter (exit 2 mid-answer).",
          "Hang verdicts use wall-clock only after logical quiescence (request fully written and object settled at the fake server / nothing in flight) with 20-90 s watchdogs; other timeouts are inconclusive. Git-lfs never sends status=error/abort; end-of-stream with non-zero exit is accepted exactly where the one-shot twin fails.",
          "DESIGN.md §5 C14"),
+ "C11": ("exploration",
+         "runtime monitor: differential twins (repository with generated .lfsconfig L vs the same with L restricted to the documented allow-list, parsed from the man page by the driver) over env/ls-files/status/fetch/pull/add/checkout/push/locks; sentinel programs, sentinel proxy and sentinel listeners for every value position that could name a program or endpoint; precedence of git config over .lfsconfig",
+         "Held on 150 (quick) / 3000 (thorough) generated files (about 135 unsafe and 10 allow-listed key templates; random case/section spellings, duplicates, includes, embedded newlines) in work tree / index / HEAD / bare repository: ~2600 commands, ~1300 output comparisons, sentinel and precedence checks per quick run; failing mixtures are minimised key by key; 3 recorded known findings.",
+         "stderr is not compared (the 'unsafe keys ignored' warning legitimately differs); https-only keys cannot show an effect against the plain-http listener; listener bound to 192.0.2.2 so that a proxy setting would be effective.",
+         "DESIGN.md §5 C11"),
+ "C18": ("exploration",
+         "runtime monitor: every request logged by the fake LFS server during push/fetch/pull/prune --verify-remote/lock scenarios is validated against the published JSON schemas (gojsonschema, loaded from docs/api/schemas at run time) and three schemas transcribed from the docs, header rules, reference-model membership of oids/sizes, and offer-vs-usage equality by the unique token of each action; single-field corruptions of valid responses; hash_algo clause",
+         "Held on 309 cases / ~3300 requests (quick) and 1950 cases / ~156000 requests (thorough): schema validations, header checks, offer/usage comparisons (method, URL, headers), ref-name and path byte equality for hostile names, cursors and limits, 240 response corruptions (no panic, following requests conform, no un-offered URL used), unsupported hash_algo never acted upon.",
+         "ref is optional per the docs (ref oddities such as HEAD or a raw sha are not flagged); unlock URL compared on decoded paths; lock paths that are not valid UTF-8 are not generated (JSON cannot carry them).",
+         "DESIGN.md §5 C18"),
 }
 
 NOT_YET = {}
